@@ -11,7 +11,9 @@ Ties (DESIGN §7 C13):
                                 obtained from FRESH, independent propagations of every (baud rate, offset) iteration.
   * oracle (implementation's own observations): receiver GSNR = line GSNR + add + drop + tx noise counted once;
     verdict consistent with the figures the result carries; an impairment outside the penalty table blocks; the figures
-    used inside the mode loop are those of a fresh propagation (no state carried from one iteration to the next).
+    used inside the mode loop are those of a fresh propagation (no state carried from one iteration to the next), every
+    mode is judged on the propagation of its own (baud rate, offset), and the returned path carries the amplifier state
+    of the deciding propagation only.
 The for-all part is Props/C13.v.
 """
 import copy
@@ -430,7 +432,8 @@ def _fresh_propagation(E, path, req, br, off, roll_off):
                 clamped = True
     rx = p[-1]
     return {'raw01': [float(x) for x in rx.raw_snr_01nm], 'cd': [float(x) for x in rx.chromatic_dispersion],
-            'pmd': [float(x) for x in rx.pmd], 'pdl': [float(x) for x in rx.pdl], 'clamped': clamped}
+            'pmd': [float(x) for x in rx.pmd], 'pdl': [float(x) for x in rx.pdl], 'clamped': clamped,
+            'gains': {el.uid: float(el.effective_gain) for el in p if isinstance(el, Edfa)}}
 
 
 def add_drop_contrib(E, path):
@@ -678,37 +681,6 @@ def drive_decision(case):
         obs['fresh_fixed'] = fresh_propagation(E, path, pr, m['baud_rate'], m['equalization_offset_db'], m['roll_off'])
         if case['bidir']:
             obs['fresh_fixed_rev'] = fresh_propagation(E, rpath, pr, m['baud_rate'], m['equalization_offset_db'], m['roll_off'])
-    # ---- is a disagreement between in-loop and fresh figures explained by the persisting clamp?  Re-run the loop with
-    # the designed gains restored at the start of every propagation.
-    obs['repaired'] = None
-    if case['mode'] is None and len([1 for e in evals if e['dir'] == 'fwd']) > 0 and len(iters_log) > 1 \
-            and not case.get('nosnr'):
-        p2 = copy.deepcopy(path)
-        r2 = copy.deepcopy(pr)
-        orig_f = rq.filter_si
-        ev2 = []
-        nfs = [0]
-
-        def fs(pth, eqp, si):
-            nfs[0] += 1
-            for el in pth:
-                if isinstance(el, elements.Edfa):
-                    el.effective_gain = designed[el.uid]
-            return orig_f(pth, eqp, si)
-
-        def cp2(self, penalties):
-            orig_cp(self, penalties)
-            if self.uid == dest_uid:
-                ev2.append({'mode': pen_ids.get(id(penalties)), 'it': nfs[0] - 1, 'snap': rx_snapshot(self)})
-        rq.filter_si = fs
-        elements.Transceiver.calc_penalties = cp2
-        try:
-            _, mode2 = rq.propagate_and_optimize_mode(p2, r2, E.eq)
-        finally:
-            rq.filter_si = orig_f
-            elements.Transceiver.calc_penalties = orig_cp
-        obs['repaired'] = {'mode': mode2['format'] if mode2 else None, 'reason': getattr(r2, 'blocking_reason', None),
-                           'evals': ev2}
     obs['_lib'] = [{'format': m['format'], 'penalties': m['penalties']} for m in lib]
     return obs
 
@@ -747,7 +719,8 @@ def term_decision(case, obs, observed=False):
     entries = []
     for br, off, fr in ([] if case.get('nosnr') else obs['fresh']):
         for k, m in enumerate(modes):
-            if m['baud_rate'] == br and m['min_spacing'] <= case['spacing']:
+            if m['baud_rate'] == br and float(m.get('equalization_offset_db', 0) or 0) == off \
+                    and m['min_spacing'] <= case['spacing']:
                 sn = seen.get((br, off, k))
                 if sn is not None:
                     f = f"(fg {fll(sn['g01'])} {fll(sn['cd'])} {fll(sn['pmd'])} {fll(sn['pdl'])})"
@@ -878,25 +851,8 @@ def leak_check(case, obs):
         bad = [k for k, (a, b) in enumerate(zip(e['snap']['g01'], exp)) if not close_db(a, b, 1e-8)]
         if bad or len(exp) != len(e['snap']['g01']):
             k = bad[0] if bad else 0
-            rep = obs.get('repaired')
-            rep_ok = None
-            if rep:
-                rep_ok = True
-                for e2 in rep['evals']:
-                    b2, o2 = obs['iters'][e2['it']] if e2['it'] < len(obs['iters']) else (None, None)
-                    f2 = fresh.get((b2, o2))
-                    if f2 is None or e2['mode'] is None:
-                        rep_ok = False
-                        break
-                    x2 = rx_g01(f2['raw01'], obs['contrib'], modes[e2['mode']]['tx_osnr'])
-                    if any(not close_db(a, b, 1e-8) for a, b in zip(e2['snap']['g01'], x2)):
-                        rep_ok = False
-                        break
-            clamped = any(obs['gains_after'].get(u, g) < g - 1e-9 for u, g in obs['gains_designed'].items()) or \
-                any(fr2['clamped'] for _, _, fr2 in obs['fresh'])
             return {'iteration': e['it'], 'propagation': [br, off], 'mode': e['mode'], 'channel': k,
                     'gsnr_in_loop': e['snap']['g01'][k], 'gsnr_fresh': exp[k], 'first_iteration': e['it'] == 0,
-                    'clamped': clamped, 'repaired_agrees': rep_ok,
                     'gains_designed': obs['gains_designed'], 'gains_after_loop': obs['gains_after']}
     return None
 
@@ -972,7 +928,8 @@ def own_oracles(ctx, case, obs):
         it = obs['iters'][fw[-1]['it']]
         own = [fin['baud_rate'], float(fin.get('equalization_offset_db', 0) or 0)]
         if it != own:
-            ctx.count('selected_under_foreign_offset')
+            ctx.violation('mode_judged_on_foreign_propagation',
+                          f"{fin['format']} (baud {own[0]}, offset {own[1]} dB) was selected on the propagation {it}", pub)
             fr = next((f for b, o, f in obs['fresh'] if [b, o] == own), None)
             raw = metric_py(rx_g01(fr['raw01'], obs['contrib'], fin['tx_osnr']), pen_py(lm['penalties'], fr))
             if not tie(raw, thr) and not round(raw, 2) > thr:
@@ -981,6 +938,18 @@ def own_oracles(ctx, case, obs):
                               f"(metric {fm}); propagated with its own offset its metric is {round(raw, 2)} <= threshold {thr}",
                               pub, detail={'deciding_propagation': it, 'own': own, 'metric_foreign': fm,
                                            'metric_own': round(raw, 2), 'threshold': thr})
+    # the path handed back carries the state of the deciding propagation only (started from the designed gains)
+    if case['mode'] is None and fw:
+        it = obs['iters'][fw[-1]['it']]
+        fr = next((f for b, o, f in obs['fresh'] if [b, o] == it), None)
+    else:
+        fr = obs.get('fresh_fixed') if case['mode'] is not None else None
+    if fr is not None:
+        badg = [(u, g, fr['gains'].get(u)) for u, g in obs['gains_after'].items()
+                if fr['gains'].get(u) is None or abs(g - fr['gains'][u]) > 1e-9]
+        if badg:
+            ctx.violation('returned_path_state', f'amplifier gains on the returned path differ from those of a fresh propagation '
+                          f'of the deciding (baud, offset): {badg[:3]}', pub)
     # an impairment outside the table always blocks
     for snap in (obs['fwd'], obs['rev']):
         if snap is None:
@@ -1033,26 +1002,12 @@ def judged(case, obs, model, observed=False):
     return True
 
 
-# ------------------------------------------------------------------ known finding F6 (narrow)
-def is_f6(v):
-    """Edfa.effective_gain clamp persisting across the iterations of propagate_and_optimize_mode: the in-loop figures of
-    a LATER iteration differ from a fresh propagation, an amplifier of the path ended below its designed gain, and
-    restoring the designed gains at the start of every iteration makes every figure agree."""
-    d = v.get('detail') or {}
-    return (v.get('key') == 'mode_loop_state_leak' and d.get('clamped') is True and d.get('repaired_agrees') is True
-            and d.get('first_iteration') is False)
-
-
-def is_sibling_offset(v):
-    """propagate_and_optimize_mode evaluates every mode of a baud rate on the propagation of every offset of that baud
-    rate: the selected mode was judged on a sibling's offset (same baud rate, other offset) and fails with its own."""
-    d = v.get('detail') or {}
-    return (v.get('key') == 'selected_mode_infeasible_with_own_offset' and d.get('deciding_propagation') is not None
-            and d['deciding_propagation'][0] == d['own'][0] and d['deciding_propagation'][1] != d['own'][1]
-            and d['metric_foreign'] > d['threshold'] >= d['metric_own'])
-
-
-MATCHERS = {'F6-mode-loop-clamp-persists': is_f6, 'C13-mode-judged-on-sibling-offset': is_sibling_offset}
+# ------------------------------------------------------------------ known findings
+# none open.  Found by this check and fixed in /repo: the Edfa clamp persisting across the iterations of the mode loop
+# (6c7139d6, oracle keys mode_loop_state_leak / returned_path_state, corpus f06_*.json) and modes judged on the propagation
+# of a sibling's offset (1495bc6e, oracle keys mode_judged_on_foreign_propagation / selected_mode_infeasible_with_own_offset,
+# corpus sibling_offset.json).  The corpus cases are regressions that must pass.
+MATCHERS = {}
 
 
 # ------------------------------------------------------------------ run
@@ -1163,7 +1118,7 @@ def run(ctx):
                 continue
             ctx.count('judged_decisions')
             if lk:
-                ctx.count('judged_with_observed_figures')
+                ctx.count('judged_with_observed_figures')  # only when a leak was flagged
             d = diff_decision(c, impl, model)
             if d:
                 ctx.corr_break('corr:Verdict.decision', d, case_public(c), impl=impl, model=model)
